@@ -3,7 +3,7 @@
 
 from zope.interface import implementer
 from twisted.internet import defer
-from allmydata.interfaces import IFilesystemNode, MustNotBeUnknownRWError, \
+from allmydata.interfaces import IFilesystemNode, MustNotBeUnknownRWError, MustBeReadonlyError, \
     MustBeDeepImmutableError
 from allmydata import uri
 from allmydata.uri import ALLEGED_READONLY_PREFIX, ALLEGED_IMMUTABLE_PREFIX
@@ -103,6 +103,12 @@ class UnknownNode:
                 if self.error:
                     assert self.rw_uri is None and self.ro_uri is None
                     return
+            elif not read_cap.is_readonly():
+                # A cap we do know, and it confers write authority: it must not
+                # go into the read slot (the "ro." prefix added below is only an
+                # allegation, and is stripped again when the entry is stored).
+                self.error = MustBeReadonlyError("cannot accept a write cap as the ro_uri of an unknown child", name)
+                return
 
         if deep_immutable:
             assert self.rw_uri is None
